@@ -317,7 +317,7 @@ theorem step_nr (a b : List Rat) (lmax0 : Nat) (st : DW) (h : DWWF a b lmax0 st)
   obtain ⟨m1, ps, hr, hcur1, hlen1, hconts1, _, _⟩ := refineStep_spec st.m bens margin h.cur
     (fun c hc => by
       obtain ⟨d, hd⟩ := List.getElem?_of_mem hc
-      exact (h.geo d c hd).reset)
+      exact (h.geo d c hd).reset.ready)
     (fun c hc => by
       obtain ⟨d, hd⟩ := List.getElem?_of_mem hc
       exact ⟨_, _, _, _, (h.geo d c hd).til⟩)
